@@ -31,6 +31,7 @@ RULE = (
     "order with the values the broker answered, FailedPayloadsError accounts for every payload exactly once (responses in payload order, only "
     "delivered replies counted as responses), and a broker-agnostic call fails as unavailable only after every known broker and then every bootstrap "
     "host was tried. non-trivial = a call over >=3 payloads answered by >=2 brokers, or a partial failure, or an exhausted fallback; distinct = distinct trace."
+    " Also: a broker-agnostic load that gives up with None is held to the fallback clause (scripts 'silentboot': bootstrap hosts that accept and stay silent); 'connected first' uses the client's own notion of connected at the call; dialling an address the current metadata no longer names violates routing; an acks=0 call reported successful although a payload never reached a connection violates accounting; script 'twoaddr': one broker cached under two addresses must still get ONE request."
 )
 ASSUMPTIONS = [
     "simkafka models a 0.10-era broker (DESIGN.md 2.4); oracles quote what the model answered, so model inaccuracy changes which situations arise, not whether afkak's reaction is right",
